@@ -685,8 +685,76 @@ func genC18Observers(c *Ctx, trials int) {
 	}
 }
 
+// genC18DuringWriter: cheap readers while a LONG writer holds the object (the first ThresholdSignature, a VerifyAndAdd:
+// about a millisecond of pairings under the write lock). The shares that make the threshold were added - by TrustedAdd,
+// by VerifyAndAdd, or one of each - and those calls have returned before the writer starts, so every read from then
+// on is ordered after them: a reader that does not wait for the lock and answers from a copy it keeps shows here. Each
+// reader keeps its first answer that differs from "enough shares / has the share" and the history goes to the model.
+func genC18DuringWriter(c *Ctx, trials int) {
+	for trial := 0; trial < trials; trial++ {
+		nt := [][2]int{{3, 1}, {4, 2}, {5, 3}}[trial%3]
+		s := newThSetup(c, nt[0], nt[1])
+		insp, err := crypto.NewBLSThresholdSignatureInspector(s.group, s.pks, s.t, s.msg, s.tag)
+		if err != nil {
+			panic(err)
+		}
+		var clock int64
+		var toks []string
+		call := func(tok string) string {
+			inv := atomic.AddInt64(&clock, 1)
+			ret := thOp(insp, tok)
+			res := atomic.AddInt64(&clock, 1)
+			toks = append(toks, fmt.Sprintf("%d,%d,%s,%s", inv, res, tok, strings.Replace(ret, "sig:", "sig~", 1)))
+			return ret
+		}
+		for i := 0; i <= s.t; i++ {
+			how := "T"
+			if (trial/3)%3 == 1 || ((trial/3)%3 == 2 && i < s.t) {
+				how = "V"
+			}
+			call(fmt.Sprintf("%s:%d:%s", how, i, hx(s.shares[i])))
+		}
+		writer := []string{"S", fmt.Sprintf("V:%d:%s", s.n-1, hx(s.shares[s.n-1])), "S"}[(trial/9)%3]
+		var mu sync.Mutex
+		var wg sync.WaitGroup
+		stop := make(chan struct{})
+		for rd := 0; rd < 2; rd++ {
+			wg.Add(1)
+			go func(rd int) {
+				defer wg.Done()
+				tok := []string{"E", fmt.Sprintf("H:%d", s.t)}[rd]
+				reported := false
+				for n := 0; ; n++ {
+					select {
+					case <-stop:
+						return
+					default:
+					}
+					inv := atomic.AddInt64(&clock, 1)
+					ret := thOp(insp, tok)
+					res := atomic.AddInt64(&clock, 1)
+					if (ret != "true" && !reported) || n == 0 {
+						mu.Lock()
+						toks = append(toks, fmt.Sprintf("%d,%d,%s,%s", inv, res, tok, ret))
+						mu.Unlock()
+						reported = reported || ret != "true"
+					}
+				}
+			}(rd)
+		}
+		inv := atomic.AddInt64(&clock, 1)
+		ret := thOp(insp, writer)
+		res := atomic.AddInt64(&clock, 1)
+		close(stop)
+		wg.Wait()
+		toks = append(toks, fmt.Sprintf("%d,%d,%s,%s", inv, res, writer, strings.Replace(ret, "sig:", "sig~", 1)))
+		c.Case("readers-during-writer", "th.lin "+s.envLine()+" "+strings.Join(toks, " "), "linearizable")
+	}
+}
+
 func genC18(c *Ctx) {
 	genC18Frozen(c, map[bool]int{false: 12, true: 300}[c.thorough()])
+	genC18DuringWriter(c, map[bool]int{false: 27, true: 270}[c.thorough()])
 	genC18Observers(c, map[bool]int{false: 20000, true: 400000}[c.thorough()])
 	nHist := 120
 	if c.thorough() {
